@@ -169,6 +169,9 @@ func init() {
 				jobs = append(jobs, job{"tumble(2s)", func(src execution.Node) execution.Node { return mustNode(mkTumble(src, 2*time.Second, nil)) }, h, 0})
 			}
 		}
+		if r.ShardChild() {
+			jobs = nil // the single-input part is done once, by the parent process
+		}
 		enum.Parallel(len(jobs), func(i int) {
 			j := jobs[i]
 			log, err, pan := stream.RunSingle(j.build, j.evs)
